@@ -211,7 +211,7 @@ func Run(conf core.Config, scope core.Scope) *core.Result {
 						}
 						res.Add(core.Finding{Rule: "ERR.overwrite", Key: fmt.Sprintf("ERR.overwrite|%s|%s|%s", name, d2.obj.Name(), types.ExprString(ast.Unparen(d2.as.Rhs[len(d2.as.Rhs)-1]).(*ast.CallExpr).Fun)),
 							Pos: core.Pos(d2.as.Pos()), Func: name,
-							Msg: fmt.Sprintf("%s receives the result of another call here while a path reaches this point from the assignment at %s without the earlier value having been looked at: an error of the earlier call is replaced, possibly by nil", d2.obj.Name(), core.Pos(lost.Pos())),
+							Msg:  fmt.Sprintf("%s receives the result of another call here while a path reaches this point from the assignment at %s without the earlier value having been looked at: an error of the earlier call is replaced, possibly by nil", d2.obj.Name(), core.Pos(lost.Pos())),
 							Path: []string{"first assignment at " + core.Pos(lost.Pos()), "overwritten at " + core.Pos(d2.as.Pos())}})
 					}
 				}
